@@ -5,3 +5,4 @@ import MutagenModel.Proofs.FileOps
 import MutagenModel.Props.C11
 import MutagenModel.Props.C14
 import MutagenModel.Props.C15
+import MutagenModel.Props.C18
